@@ -286,7 +286,7 @@ pub fn c09_sq10_weight3(seed: u64) -> Phase {
         }
     };
     Phase {
-        source: Source::Sweep { name: "sweep_sq10_all_weight3".into(), prop: "C09".into(), make: Box::new(make) },
+        source: Source::Sweep { name: "sweep_sq10_all_weight3_codeword_stage_only".into(), prop: "C09".into(), make: Box::new(make) },
         runs: total,
         wall_cap_s: 0,
     }
@@ -930,6 +930,59 @@ pub fn c05_charset_sections() -> Phase {
     };
     Phase {
         source: Source::Sweep { name: "sweep_charset_sections_all_high_byte_pairs_and_triples".into(), prop: "C05".into(), make: Box::new(make) },
+        runs: total,
+        wall_cap_s: 0,
+    }
+}
+
+/// Weight-2 patterns with one error on an edge of the block: every codeword position of every size paired
+/// with the last EC codeword, the second-to-last EC codeword and the first data codeword OF ITS BLOCK, the
+/// edge error taking `nvals` values (255 = all; otherwise the field's boundary elements alpha^0, alpha^1,
+/// alpha^2, alpha^127, alpha^128, alpha^253, alpha^254, 0x80, 0xFF and seeded others), the free error a seeded
+/// value. Two-error decoding has closed forms and table look-ups whose corner cases sit at extreme logs.
+pub fn c03_edge_pairs(seed: u64, nvals: u64) -> Phase {
+    let prefix = prefix_of(|s| SIZES[s].n_total() as u64 * 3 * nvals);
+    let total = prefix[N_SIZES];
+    let make = move |ctx: &Ctx, i: u64| -> Trace {
+        let (s, r) = locate(&prefix, i);
+        let si = &SIZES[s];
+        let vi = r % nvals;
+        let r2 = r / nvals;
+        let partner_kind = (r2 % 3) as usize;
+        let p = (r2 / 3) as usize;
+        let b = si.block_of(p);
+        let bp = si.block_positions(b);
+        let partner = match partner_kind {
+            0 => bp[bp.len() - 1],
+            1 => bp[bp.len() - 2],
+            _ => bp[0],
+        };
+        let gf = &ctx.gf;
+        let val: u8 = if nvals == 255 {
+            (vi + 1) as u8
+        } else {
+            match vi {
+                0 => gf.alpha_pow(0),
+                1 => gf.alpha_pow(1),
+                2 => gf.alpha_pow(2),
+                3 => gf.alpha_pow(127),
+                4 => gf.alpha_pow(128),
+                5 => gf.alpha_pow(253),
+                6 => gf.alpha_pow(254),
+                7 => 0x80,
+                8 => 0xFF,
+                _ => (mix64(seed ^ i.wrapping_mul(0x9E37_79B9_7F4A_7C15)) % 255) as u8 + 1,
+            }
+        };
+        let free = (mix64(seed ^ 0x55 ^ (p as u64).wrapping_mul(0xD1B5_4A32_D192_ED03)) % 255) as u8 + 1;
+        let mut faults = vec![Fault::new("cw_pair", Op::CwXor { pos: partner as u32, mask: val })];
+        if partner != p {
+            faults.push(Fault::new("cw_pair", Op::CwXor { pos: p as u32, mask: free }));
+        }
+        Trace { prop: "C03".into(), producer: Producer::Raw { size: s, data: seeded_data(seed, s, (p as u64) % 3) }, faults }
+    };
+    Phase {
+        source: Source::Sweep { name: format!("sweep_edge_pairs_x{}_codeword_stage_only", nvals), prop: "C03".into(), make: Box::new(make) },
         runs: total,
         wall_cap_s: 0,
     }
